@@ -335,15 +335,21 @@ func universe(kind int, n int, pick func(int) int) []string {
 			out = append(out, s)
 		}
 	}
+	// a random selection of n strings of the alphabet (not always its first n)
+	sample := func(list []string) {
+		perm := append([]string(nil), list...)
+		for i := 0; i < len(perm) && i < n; i++ {
+			j := i + pick(len(perm)-i)
+			perm[i], perm[j] = perm[j], perm[i]
+			add(perm[i])
+		}
+	}
 	switch kind {
 	case AlphaTiny:
-		for _, s := range []string{"", "a", "b", "aa", "ab", "ba", "bb", "aab", "abb", "aba", "baa", "abab", "aaaa", "c", "ca", "abc"} {
-			add(s)
-		}
+		sample([]string{"", "a", "b", "aa", "ab", "ba", "bb", "aab", "abb", "aba", "baa", "abab", "aaaa", "c", "ca", "abc"})
 	case AlphaEscape:
-		for _, s := range []string{"", "\x00", "\x01", "\xff", "\x00\x00", "\x00\x01", "\x01\x00", "\x01\x01", "\x00\xff", "\xff\x00", "\x01\x02", "\x02", "\x00\x00\x00", "a\x00", "a\x00b", "a\x01", "a", "\x01\x01\x01", "\x00\x01\x00", "\xff\xff"} {
-			add(s)
-		}
+		sample([]string{"", "\x00", "\x01", "\xff", "\x00\x00", "\x00\x01", "\x01\x00", "\x01\x01", "\x00\xff", "\xff\x00", "\x01\x02", "\x02", "\x00\x00\x00", "a\x00", "a\x00b", "a\x01", "a", "\x01\x01\x01", "\x00\x01\x00", "\xff\xff",
+			"\x01\x05", "\x01\xff", "\x01a", "\x01\x05\x00", "\x01\x06", "\x00\x02", "\x02\x01", "\x01\x03\x00", "\x03", "\x00a"})
 	case AlphaFanout:
 		// single bytes spread over the whole range plus a second level under one byte,
 		// enough siblings to cross every node size threshold
